@@ -227,9 +227,22 @@ theorem resolver_needs_environments_counterexample :
         ∀ id db, reportHas r id db = imageHas S layers id db
 -/
 
+/-- `whiteout/resolver.go fileIsDeleted` is the OCI whiteout rule, for ALL paths: for a whiteout
+    entry `w` (base name starting with `.wh.`) other than an opaque marker at the root of the
+    layer, `fileIsDeleted fp w` holds exactly when `w` covers `fp` — `.wh.x` covers `x` and
+    everything below it, `.wh..wh..opq` covers everything below its directory (and not the
+    directory itself). -/
+theorem fileIsDeleted_is_oci_cover (fp w : String) (hw : isWhiteout w = true)
+    (hroot : ¬ (base w = opqName ∧ dir w = ".")) : fileIsDeleted fp w = covers w fp :=
+  fileIsDeleted_eq_covers fp w hw hroot
+
+/-- A package without `Filepath` (every OS package) is never removed by the resolver. -/
+theorem resolver_keeps_packages_without_filepath (w : String) : fileIsDeleted "" w = false :=
+  fileIsDeleted_nofp w
+
 /-- `index_eq_flatten_partial`: for ALL scanners and ALL layer stacks satisfying the decidable
     predicate `Tame` (Proofs/LayerFS.lean: no duplicate digests; a path once per layer; at most one
-    whiteout per layer; `fileIsDeleted` = OCI cover relation on the stack's paths; package files
+    whiteout per layer; no opaque marker at the root of a layer; package files
     hidden by whiteouts only; OS databases never hidden and never empty; no package file
     overwritten with another package; one path per language package id; OS and language ids
     apart) indexing succeeds and the finished report lists package `id` with package database
@@ -286,7 +299,7 @@ theorem index_eq_flatten_shared_id_counterexample :
     Ex.inImageNotReported Ex.S0 Ex.sharedId "X" Ex.dpkgDB := by decide
 
 set_option maxRecDepth 10000 in
-/-- clause `delSpec`: `fileIsDeleted` ignores an opaque marker at the root of a layer. -/
+/-- clause `noRootOpaque`: `fileIsDeleted` ignores an opaque marker at the root of a layer. -/
 theorem index_eq_flatten_root_opaque_counterexample :
     Ex.reportedNotInImage Ex.S0 Ex.rootOpaque "requests-1" "lang:a/x" := by decide
 
